@@ -216,6 +216,19 @@ def render(items, interp=lambda e, info: "#" + _interp_name(e)):
     return " ".join(out)
 
 
+def render_pos(items):
+    """render with interpolations numbered by first occurrence (#0, #1, ..): independent of local variable names"""
+    seen = {}
+
+    def interp(e, info):
+        e2 = strip(e)
+        k = ("local", e2.get("id")) if e2.get("k") == "Path" and e2.get("r") == "local" else ("expr", id(e2))
+        if k not in seen:
+            seen[k] = len(seen)
+        return "#%d" % seen[k]
+    return render(items, interp)
+
+
 def _interp_name(e):
     e = strip(e)
     if e.get("k") == "Path" and e.get("r") == "local":
